@@ -158,6 +158,14 @@ def structural_programs():
         ("left-join", "DS_r <- left_join(DS_2 as a, DS_1 as b using Id_1 keep a#Me_3, b#Me_2);", [d1, d2]),
         ("full-join", "DS_r <- full_join(DS_1 as a, DS_1 as b keep a#Me_1, b#Me_2);", [d1]),
         ("union", "DS_r <- union(DS_1, DS_1[filter Me_1 > 2]);", [d1]),
+        # operands whose physical column order differs from the declared component order (keep lists measures in another order)
+        ("union-reordered-first", "DS_r <- union(DS_1[keep Me_2, Me_1], DS_1[drop At_1][filter Me_1 > 2]);", [d1]),
+        ("union-reordered-second", "DS_r <- union(DS_1[drop At_1][filter Me_1 > 2], DS_1[keep Me_2, Me_1]);", [d1]),
+        ("intersect-reordered", "DS_r <- intersect(DS_1[keep Me_2, Me_1], DS_1[drop At_1]);", [d1]),
+        ("setdiff-reordered", "A := DS_1[keep Me_2, Me_1]; DS_r <- setdiff(A, DS_1[drop At_1][filter Me_1 > 2]);", [d1]),
+        ("binary-reordered", "A := DS_1[keep Me_2, Me_1]; DS_r <- A + DS_1[drop At_1];", [d1]),
+        ("join-reordered", "A := DS_1[keep Me_2, Me_1]; DS_r <- inner_join(A as a, DS_2 as b using Id_1 keep a#Me_2, b#Me_3);", [d1, d2]),
+        ("aggr-reordered", "A := DS_2[keep Me_3, Me_1]; DS_r <- max(A group by Id_1);", [d2]),
         ("comparison", "DS_r <- DS_1[keep Me_1] > 2;", [d1]), ("isnull", "DS_r <- isnull(DS_1[keep Me_2]);", [d1]),
         ("time-agg", "DS_r <- DS_2[calc Me_9 := time_agg(\"M\", _, Id_2, first)];", [d2]),
         ("dateadd", "DS_r <- DS_2[calc Me_9 := dateadd(Id_2, 1, \"M\")];", [d2]),
